@@ -190,9 +190,12 @@ static int io_hook(int is_write, uint32_t n, unsigned size, const uint8_t *wbuf,
     return 0;
 }
 
-/* native "mem:" device */
+/* native "mem:" device; g_wprotect: the medium is write-protected - the driver can only get read-only access and says so, whatever
+   access was asked for (what adfInitDumpDevice does on EACCES / EROFS), and the medium refuses writes */
+static int g_wprotect = 0;
 static RETCODE memInit(struct AdfDevice *const dev, const char *const name, const BOOL ro) {
     (void)name; (void)ro;
+    if (g_wprotect) dev->readOnly = TRUE;
     dev->size = (uint32_t)mem_size;
     dev->cylinders = g_cyl; dev->heads = g_heads; dev->sectors = g_sect;
     return RC_OK;
@@ -208,6 +211,7 @@ static RETCODE memRead(struct AdfDevice *const dev, const uint32_t n, const unsi
 static RETCODE memWrite(struct AdfDevice *const dev, const uint32_t n, const unsigned size, const uint8_t *const buf) {
     (void)dev;
     if (io_hook(1, n, size, buf, NULL)) return RC_ERROR;
+    if (g_wprotect) return RC_ERROR;
     if ((uint64_t)n * 512 + size > mem_size) return RC_ERROR;
     memcpy(mem + (size_t)n * 512, buf, size);
     return RC_OK;
@@ -472,6 +476,7 @@ int main(int argc, char **argv) {
             out(rc == RC_OK ? "ok" : "err rc=%d", rc);
         }
         else if (!strcmp(c, "closedev")) { ENTER(); adfCloseDev(dev); LEAVE(); dev = NULL; vol = NULL; close_handles(); out("ok"); }
+        else if (!strcmp(c, "wprotect")) { g_wprotect = atoi(a[1]); out("ok"); }
         else if (!strcmp(c, "mountdev")) { /* mountdev <ro> */
             bail_armed = 1;
             if (sigsetjmp(bail, 1)) { in_lib = 0; bail_armed = 0; out("hang"); fflush(stdout); _exit(3); }
